@@ -36,6 +36,8 @@ const NUMBERS: &[&str] = &[
     "4294967296", "99999999999999999999", "\"7FFFFFFF", "\"80000000", "\"FFFFFFFF", "\"10FFFF",
     "\"D800", "'17777777777", "'777", "`a", "`\\a", "`\\^^M", "`é", "`😀", "+-+5", "- - 3",
     "16383.99999", "16384", "0.00001", ".5", "1,5", "32768.1",
+    // fractions that round up to exactly 1.0 (2^16 sixty-five-thousand-five-hundred-thirty-sixths) or sit next to it
+    ".999993", "0.9999999", ".99999", "1.999999", ".99999999999999999", "16383.999999", "0.000007", "0.000008",
 ];
 
 const UNITS: &[&str] = &[
@@ -107,7 +109,7 @@ fn gen_fragment(rng: &mut Rng) -> String {
         }
         NUMBERS[rng.usize_below(NUMBERS.len())].to_string()
     };
-    match rng.below(104) {
+    match rng.below(106) {
         0..=24 => format!("\\{} ", voc[rng.usize_below(voc.len())]),
         25..=34 => num(rng),
         35..=39 => UNITS[rng.usize_below(UNITS.len())].to_string(),
@@ -226,6 +228,13 @@ fn gen_fragment(rng: &mut Rng) -> String {
             };
             format!("{setup}{use_it}")
         }
+        104..=105 => format!(
+            "{}{}={}{} ",
+            rng.pick(&["\\dimen", "\\skip"]),
+            rng.below(3),
+            rng.pick(&[".999993", "0.9999999", ".99999", "1.999999", "-.999999", "0.5", "16383.999999"]),
+            rng.pick(&["em", "ex", "\\dimen1", "\\skip2", "\\count1", "em plus .999999ex minus 0.9999999\\dimen2", "pt"])
+        ),
         101..=103 => {
             // the end-line character changed on an EARLIER line (it takes effect when the next line is read), then a
             // construct whose last character is the last character of a line or of the input: a lone escape
